@@ -4,10 +4,11 @@ input to the plugin, as a small transition system over the RAW stage-input value
 
 It refines the part of `PluginStep.syncStep` between the end of the deployment and the start of the plugin:
 
-* `provideEnablingInput` computes `enabled := <decision on input["enabled"]>` and sends that bool on `r.enabledInput`;
-  `provideCancelledInput` calls `cancelStep()` (which cancels the step context) when `<decision on input["stop_if"]>` holds.
-  Both decisions are NOT written here: they are parameters, instantiated by the regenerated facts
-  `Arca.Gen.pluginEnabledDecision` / `Arca.Gen.pluginStopDecision` (extract/decisions.go).
+* `provideEnablingInput` computes `enabled := <decision on input["enabled"]>` and sends that bool on `r.enabledInput`, or
+  returns an error when `<refusal condition>` holds (a value the bool schema rejects); `provideCancelledInput` accepts ONE
+  input and calls `cancelStep()` (which cancels the step context) when `<decision on input["stop_if"]>` holds.
+  The decisions are NOT written here: they are parameters, instantiated by the regenerated facts
+  `Arca.Gen.pluginEnabledDecision` / `pluginEnabledRefusal` / `pluginStopDecision` / `pluginStopOnce` (extract/decisions.go).
 * `run()` is modelled with the program points that matter for the races between a stop and the inputs:
   `w0` (deployStage before its receive of the deploy input: a non-blocking receive first, then a blocking `select` with the
   context), `parkedDeploy` (blocked in that `select`), `deploying` (Deploy in progress; `startPlugin` checks the context when it returns), `w1` (context check passed, the
@@ -26,21 +27,6 @@ import Arca.Model.FieldCond
 namespace Arca.Model.Gate
 open Arca.Model
 
-/-! ## The bool schema's reading of a serialized value (pluginsdk `BoolSchema.Unserialize`; ASCII case folding) -/
-
-def boolStrings : List (String × Bool) :=
-  [("1", true), ("yes", true), ("y", true), ("on", true), ("true", true), ("enable", true), ("enabled", true),
-   ("0", false), ("no", false), ("n", false), ("off", false), ("false", false), ("disable", false), ("disabled", false)]
-
-def lowerAscii (s : String) : String := String.ofList (s.toList.map Char.toLower)
-
-/-- `some b`: the schema reads the value as `b`; `none`: the schema rejects it -/
-def boolRead : Val → Option Bool
-  | .bool b => some b
-  | .int i => if i = 1 then some true else if i = 0 then some false else none
-  | .str s => lookup (lowerAscii s) boolStrings
-  | _ => none
-
 /-! ## The transition system -/
 
 inductive Pc where
@@ -48,8 +34,14 @@ inductive Pc where
   deriving Repr, DecidableEq, Inhabited
 
 structure Cfg where
+  /-- the bool sent on r.enabledInput, as a condition on input["enabled"] -/
   enabledDec : FieldCond
+  /-- the condition on input["enabled"] under which provideEnablingInput returns an error before touching the step -/
+  enabledRefuse : FieldCond
+  /-- the condition on input["stop_if"] under which cancelStep() is called -/
   stopDec : FieldCond
+  /-- provideCancelledInput accepts one input only (`r.stopInputAvailable`) -/
+  stopOnce : Bool
 
 structure GState where
   pc : Pc
@@ -59,6 +51,7 @@ structure GState where
   enabledAvail : Bool            -- r.enabledInputAvailable
   runCh : Bool                   -- r.runInput holds the run input
   runAvail : Bool                -- r.runInputAvailable
+  stopAvail : Bool               -- r.stopInputAvailable
   ctxDone : Bool                 -- r.ctx cancelled
   -- ghost state
   given : Option (Option Val)    -- the raw value of input["enabled"] of the accepted enabling input
@@ -75,6 +68,7 @@ def init : GState :=
     enabledAvail := false
     runCh := false
     runAvail := false
+    stopAvail := false
     ctxDone := false
     given := none
     announced := false
@@ -123,6 +117,7 @@ def step (c : Cfg) (s : GState) : GAct → Option GState
     else none
   | .provideEnabling i =>
     if s.enabledAvail then none
+    else if c.enabledRefuse.eval i then none      -- "invalid enabled value": an error, nothing changed
     else
       let b := c.enabledDec.eval i
       let s1 := { s with enabledAvail := true, given := some i }
@@ -135,7 +130,10 @@ def step (c : Cfg) (s : GState) : GAct → Option GState
     else if s.pc = .parkedStart then some { s with runAvail := true, pc := .executing }
     else some { s with runAvail := true, runCh := true }
   | .provideCancelled i =>
-    if c.stopDec.eval i then some (cancelCtx s) else some s
+    if c.stopOnce && s.stopAvail then none        -- "stop condition provided more than once"
+    else
+      let s1 := { s with stopAvail := true }
+      if c.stopDec.eval i then some (cancelCtx s1) else some s1
   | .close => some (cancelCtx s)
   | .deployOk =>
     if s.pc = .deploying then
